@@ -898,5 +898,7 @@ func c20(c *Ctx) {
 	}
 	c20Races(c)
 	c20PM(c)
+	c20Fork(c) // block trees (forks) on the real ProtocolManager, incl. the real stableBlockLoop
 	c20Real(c) // last: no other ProtocolManager may be alive (process-wide event bus)
+	c20RealFork(c)
 }
